@@ -548,8 +548,11 @@ class Timeline:
         --------
         :func:`pyannote.core.Timeline.overlapping`
         """
-        segment = Segment(start=t, end=t)
-        for segment in self.segments_list_.irange(maximum=segment):
+        for segment in self.segments_list_:
+            # segments are sorted by start time: none of the remaining
+            # segments can contain t once a segment starts after t
+            if segment.start > t:
+                break
             if segment.overlaps(t):
                 yield segment
 
